@@ -115,7 +115,7 @@ def write(prop, tier, seed, reports, harness_errors, nondet, wall, n_viol, known
         },
         "assumptions": [
             "single worker runs at any moment (baton passing): true parallelism inside jaxlib is not explored",
-            "CPU backend, float64 (jax_enable_x64), XLA single-threaded",
+            "CPU backend, float64 (jax_enable_x64), XLA single-threaded; compiled XLA executables are re-used within one session through JAX's persistent compilation cache in a per-session scratch directory (DSIM_XLA_CACHE=off disables it)",
             "catalogue models avoid exact ties between choices and states without feasible choice (outside the claimed properties)",
             "float columns compared with rtol=1e-9; integer/discrete columns exactly",
             "a clean batch is evidence from sampling, not a proof",
